@@ -646,7 +646,12 @@ func (g *opGen) fields(def *ast.Definition, depth int, used map[string]bool) []s
 			if g.mirror && g.mr.Intn(2) == 0 {
 				sel = !sel
 			}
-			if sel {
+			if sel && g.p.HostileAliases && g.chance(0.4) {
+				// the id under another response key only
+				parts = append(parts, "uid: id")
+				used["uid"] = true
+				g.tag("aliased-id")
+			} else if sel {
 				parts = append(parts, "id")
 				used["id"] = true
 				g.tag("explicit-id")
